@@ -10,7 +10,7 @@ MAP = {
  "ac03d60": "C16", "36684af": "C17", "692ee54": "C17", "1c6b748": "C17", "d34cc54": "C18", "9be74c0": "C18", "a4e9ced": "C11",
  "0d5e9ed": "C19", "0deecb7": "C27", "04ea8f4": "C25", "968f362": "C25", "b00b311": "C26", "9861744": "C26", "3229e54": "C31",
  "085e3e3": "C14", "97520d1": "C12", "60c7602": "C12", "6705f21": "C26", "3bd1a8f": "C26", "3db8143": "C27", "770eec4": "C03",
- "71aa3df": "C04", "636d4e4": "C08", "30dc68e": "C06", "ef14294": "C06", "3bdd871": "C06", "8930e2f": "C06", "8286756": "C29", "75c2dbb": "C16", "fad7fe6": "C16",
+ "71aa3df": "C04", "37712ab": "C03", "636d4e4": "C08", "30dc68e": "C06", "ef14294": "C06", "3bdd871": "C06", "8930e2f": "C06", "8286756": "C29", "75c2dbb": "C16", "fad7fe6": "C16",
 }
 log = subprocess.run(["git", "-C", "/repo", "log", "--format=%h\t%s", "528ef70..HEAD"], capture_output=True, text=True).stdout
 p = os.path.join(V, "known_findings.json")
